@@ -35,6 +35,30 @@ def serde_fields(struct_text):
     return out
 
 
+def struct_level_default(struct_text):
+    """True if the struct itself carries #[serde(default)] (every field optional)."""
+    head = struct_text[:struct_text.index("{")]
+    return bool(re.search(r"#\[serde\([^\]]*\bdefault\b[^\]]*\)\]", head))
+
+
+def cache_axioms(u):
+    """serde contract of the lock structure, generated from the real `Cache` definition: every field without a
+    default is a required key."""
+    text, _, _ = extract_item(CTX, r"pub struct Cache\b")
+    fields = serde_fields(text)
+    if [f for f, _, _ in fields] != ["next_reference_id"]:
+        raise LostAnchor("struct Cache no longer has exactly the field next_reference_id")
+    required = not struct_level_default(text) and all(a is None for _, _, a in fields)
+    u.raw("""verus! {
+// ---- serde_yaml::from_str::<Cache>: assumed contract GENERATED from the definition of `Cache` in context.rs ----
+pub uninterp spec fn yaml_has__next_reference_id(s: Seq<char>) -> bool;
+pub proof fn axiom_serde_cache(s: Seq<char>)
+    ensures %s
+{ admit(); }
+}
+""" % ("yaml_cache(s).is_some() ==> yaml_has__next_reference_id(s)" if required else "true"), "generated: serde contract of Cache")
+
+
 def serde_axioms(u):
     """Generate the assumed contract of serde_yaml::from_str::<Config> from the real attributes."""
     cfg_text, _, _ = extract_item(CTX, r"pub struct Config\b")
@@ -126,7 +150,8 @@ pub uninterp spec fn decode(b: Seq<u8>) -> Seq<char>;                  // the te
 // what a run starting now would read from the lock file (C16: None when disabled, absent, unreadable or unparsable)
 pub open spec fn lock_value(w: World, use_cache: bool, lp: Seq<char>) -> Option<u32> {
     if !use_cache || !w.fs.dom().contains(lp) || !readable(lp) { None }
-    else if yaml_cache(decode(w.fs[lp])).is_some() { Some(yaml_cache(decode(w.fs[lp])).unwrap().next_reference_id) }
+    // C16: a lock that cannot be parsed, or that does not carry the next ID, is ignored
+    else if yaml_cache(decode(w.fs[lp])).is_some() && yaml_has__next_reference_id(decode(w.fs[lp])) { Some(yaml_cache(decode(w.fs[lp])).unwrap().next_reference_id) }
     else { None }
 }
 pub proof fn axiom_decode(s: Seq<char>) ensures decode(encode_utf8(s)) == s { admit(); }
@@ -140,7 +165,7 @@ def cache_writer(u):
     rules.sig(f, ret=None, world=True)
     rules.r1_logs(f)
     rules.r13_reroot(f, {"std::path::": "stdshim::path::", "std::fs::": "stdshim::fs::"})
-    rules.r8_thread(f, [r"stdshim::fs::write\(", r"std::fs::write\("]) if False else None
+    rules.r8_thread(f, [r"\.exists\(", r"std::fs::(?:remove_file|copy|rename)\("])
     # thread the World into the (re-rooted) write
     for h in re.finditer(r"std::fs::write\s*\(", f.mbody):
         from weave import lexer
@@ -171,15 +196,12 @@ def build():
     u.include("shims/io.rs")
     u.include("shims/stdshim.rs")
 
-    def de_serde(t):
-        t = re.sub(r"^\s*#\[serde\([^\]]*\)\]\s*\n", "", t, flags=re.M)
-        t = re.sub(r"^\s*#\[allow\(dead_code\)\]\s*\n", "", t, flags=re.M)
-        t = re.sub(r"#\[derive\([^\]]*\)\]", "", t)
-        return common.wrap(common.pub_fields(common.strip_doc(t)))
+    de_serde = common.de_serde
     for item in (r"pub struct RustLogMacro\b", r"pub struct RustConfig\b", r"pub struct Config\b", r"pub struct Cache\b", r"pub struct Context\b"):
         u.real_item(CTX, item, de_serde, "serde/derive attributes read by the contract generator, then dropped")
     serde_axioms(u)
     u.raw(lock_value_spec())
+    cache_axioms(u)
     u.include("shims/yaml.rs")
     defaults(u)
     u.raw("verus! {\nimpl Context {\n")
@@ -192,7 +214,7 @@ def build():
     rules.sig(f, ret="r", world=True)
     rules.r1_logs(f)
     rules.r13_reroot(f, {"std::path::": "stdshim::path::", "std::fs::": "stdshim::fs::"})
-    rules.r8_thread(f, [r"\.exists\(", r"std::fs::read_to_string\("])
+    rules.r8_thread(f, [r"\.exists\(", r"std::fs::(?:read_to_string|remove_file|copy|rename|write)\("])
     f.ensures += [
         ("C04.frame", "final(w).fs == old(w).fs && same_but_fs(World { log: final(w).log, ..*old(w) }, *final(w))"),
         ("C16.nocache,C16.corrupt,C15.lock", "r == lock_value(*old(w), config.use_cache, path_join(directory_path@, lock_name()))"),
@@ -201,7 +223,7 @@ def build():
     f.after_stmt("if let Ok(cache_yaml) = std::fs::read_to_string(", "") if False else None
     s0, e0, _ = f.find_one("if let Ok(cache_yaml) =")
     ob = f.mbody.index("{", e0)
-    f.insert_at(ob + 1, " proof { axiom_decode(cache_yaml@); }")
+    f.insert_at(ob + 1, " proof { axiom_decode(cache_yaml@); axiom_serde_cache(cache_yaml@); }")
     # ---- new --------------------------------------------------------------------------------------------
     f = u.real_fn(CTX, "new", scope=IMPL, owner="Context", props=("C04", "C15", "C16", "C17"))
     rules.sig(f, ret="res", world=True)
